@@ -12,3 +12,4 @@ import EasyNet.Lemmas.ChunkIndep
 import EasyNet.Lemmas.RUSpec
 import EasyNet.Props.C01
 import EasyNet.Props.C02
+import EasyNet.Props.C07
